@@ -201,4 +201,95 @@ Section Fields.
     { f_equal. f_equal. unfold tlv. rewrite !rev_app_distr, <- !app_assoc. reflexivity. }
     split; reflexivity.
   Qed.
+
+  (* ---- generalisation: the value bytes of a struct-typed element may be ANY bytes the nested parser maps to the nested
+     value (e.g. its encoding with unrecognised skippable elements inside); every other kind has its exact payload ---- *)
+  Definition pay (f : nat) (ic : bool) (k : fkind) (v : value) (pl : bytes) : Prop :=
+    match k with
+    | KStruct m => match v with
+                   | VStruct fs => exists cx cv, bparse D sc m ic (br_of pl) = Ok (fs, cx, cv)
+                   | _ => False
+                   end
+    | _ => pl = payload f sc k v
+    end.
+
+  Definition is_struct (k : fkind) : bool := match k with KStruct _ => true | _ => false end.
+
+  Lemma pay_nonstruct f ic k v pl : is_struct k = false -> pay f ic k v pl -> pl = payload f sc k v.
+  Proof. destruct k; intros H P; try discriminate H; exact P. Qed.
+
+  Lemma pay_exact f ic k v : (S f <= Fmax)%nat -> wf_val (S f) sc k v = true -> present k v = true ->
+    small (payload f sc k v) -> pay f ic k v (payload f sc k v).
+  Proof.
+    intros Hf Hw Hp Hs. destruct k; try reflexivity.
+    destruct v; try discriminate Hw; try discriminate Hp. cbn [pay payload] in *.
+    cbn [wf_val] in Hw. unfold the_model in *.
+    destruct (nth_error sc m) as [md|] eqn:Em; [|discriminate Hw].
+    rewrite (nth_error_nth' sc m md _ Em) in *.
+    destruct (Hsub f m fs ic Hf) as [cx [cv Hb]].
+    - unfold wf_value. rewrite Em. exact Hw.
+    - unfold encode, the_model. rewrite (nth_error_nth' sc m md _ Em). exact Hs.
+    - unfold encode, the_model in Hb. rewrite (nth_error_nth' sc m md _ Em) in Hb. eauto.
+  Qed.
+
+  Lemma b_rd_val_pay f ic k v pl p t :
+    (S f <= Fmax)%nat -> valk k = true -> wf_val (S f) sc k v = true -> present k v = true -> small pl -> pay f ic k v pl ->
+    b_rd_val (bparse D sc) ic k (N.of_nat (length pl)) (mkbr p (pl ++ t)) = ROk v (mkbr (rev pl ++ p) t).
+  Proof.
+    intros Hf Hk Hw Hp Hs Hpay.
+    destruct (is_struct k) eqn:Est.
+    - destruct k; try discriminate Est. destruct v; try (destruct Hpay; fail).
+      cbn [pay] in Hpay. destruct Hpay as [cx [cv Hb]].
+      cbn [rd_val]. rewrite to_int_small by exact Hs. rewrite nat_N_Z. rewrite b_delegate_app. rewrite Hb. reflexivity.
+    - rewrite (pay_nonstruct f ic k v pl Est Hpay) in *. apply b_rd_val_payload; assumption.
+  Qed.
+
+  Lemma b_rd_field_single_pay f ic i k v pl sp s p t :
+    (S f <= Fmax)%nat -> single k = true -> wf_val (S f) sc k v = true -> present k v = true -> small pl -> pay f ic k v pl ->
+    exists s', b_rd_field (bparse D sc) ic i k (N.of_nat (length pl)) sp s (mkbr p (pl ++ t))
+               = ROk s' (mkbr (rev pl ++ p) t)
+               /\ p_vals s' = upd i v (p_vals s) /\ p_hand s' = upd i true (p_hand s).
+  Proof.
+    intros Hf Hs Hw Hp Hsm Hpay.
+    destruct (is_struct k) eqn:Est.
+    - pose proof (b_rd_val_pay f ic k v pl p t Hf ltac:(destruct k; try discriminate Est; reflexivity) Hw Hp Hsm Hpay) as Hrd.
+      destruct k; try discriminate Est. unfold rd_field. rewrite Hrd. eexists; split; [reflexivity|split; reflexivity].
+    - rewrite (pay_nonstruct f ic k v pl Est Hpay) in *. apply b_rd_field_single; assumption.
+  Qed.
+
+  Lemma b_rd_field_seq_pay f0 ic i k x pl old sp s p t :
+    (S f0 <= Fmax)%nat -> seq_sub_ok k = true -> is_none x = false -> wf_val (S f0) sc k x = true ->
+    small pl -> pay f0 ic k x pl -> nth i (p_vals s) VNone = VSeq old ->
+    exists s', b_rd_field (bparse D sc) ic i (KSeq k) (N.of_nat (length pl)) sp s (mkbr p (pl ++ t))
+               = ROk s' (mkbr (rev pl ++ p) t)
+               /\ p_vals s' = upd i (VSeq (old ++ [x])) (p_vals s) /\ p_hand s' = upd i true (p_hand s).
+  Proof.
+    intros Hf Hk Hx Hw Hs Hpay Hold. destruct (seq_sub_facts k x Hk Hx) as [Hv [_ Hp]].
+    unfold rd_field. rewrite (b_rd_val_pay f0 ic k x pl p t Hf Hv Hw Hp Hs Hpay).
+    unfold get_val. cbn [set_hand p_vals]. rewrite Hold.
+    eexists; split; [reflexivity|split; reflexivity].
+  Qed.
+
+  Lemma b_rd_field_map_pay f0 ic i key vt val kx vx plv old sp s p t :
+    (S f0 <= Fmax)%nat -> map_key_ok key = true -> map_val_ok val = true -> vt < two64 ->
+    is_none kx = false -> is_none vx = false -> wf_val (S f0) sc key kx = true -> wf_val (S f0) sc val vx = true ->
+    small (payload f0 sc key kx) -> small plv -> pay f0 ic val vx plv -> nth i (p_vals s) VNone = VMap old ->
+    exists s', b_rd_field (bparse D sc) ic i (KMap key vt val) (N.of_nat (length (payload f0 sc key kx))) sp s
+                 (mkbr p (payload f0 sc key kx ++ tlv vt plv ++ t))
+               = ROk s' (mkbr (rev (payload f0 sc key kx ++ tlv vt plv) ++ p) t)
+               /\ p_vals s' = upd i (VMap (map_put kx vx old)) (p_vals s) /\ p_hand s' = upd i true (p_hand s).
+  Proof.
+    intros Hf Hk Hv Hvt Hkx Hvx Hwk Hwv Hsk Hsv Hpay Hold.
+    destruct (seq_sub_facts key kx (map_key_seq _ Hk) Hkx) as [Hk1 [_ Hk2]].
+    destruct (seq_sub_facts val vx (map_val_seq _ Hv) Hvx) as [Hv1 [_ Hv2]].
+    unfold rd_field. rewrite (b_rd_val_payload f0 ic key kx p _ Hf Hk1 Hwk Hk2 Hsk).
+    destruct (b_rd_header vt plv (rev (payload f0 sc key kx) ++ p) t Hvt Hsv) as [H1 H2].
+    rewrite H1. cbn [negb]. rewrite H2. cbn [negb].
+    rewrite N.eqb_refl. cbn [negb].
+    rewrite (b_rd_val_pay f0 ic val vx plv _ t Hf Hv1 Hwv Hv2 Hsv Hpay).
+    unfold get_val. cbn [set_hand p_vals]. rewrite Hold.
+    eexists. split.
+    { f_equal. f_equal. unfold tlv. rewrite !rev_app_distr, <- !app_assoc. reflexivity. }
+    split; reflexivity.
+  Qed.
 End Fields.
